@@ -345,7 +345,7 @@ fn fault_events(rng: &mut Rng, s: &[u8], allow_other: bool) -> String {
         match rng.below(8) {
             0 | 1 => toks.push("W".into()),
             2 => toks.push("I".into()),
-            3 if allow_other => toks.push("O".into()),
+            3 if allow_other => toks.push(if rng.chance(1, 2) { "O".into() } else { "E".into() }),
             4 => {
                 toks.push("W".into());
                 toks.push("W".into());
